@@ -579,3 +579,8 @@ if __name__ == "__main__":
     for ob in r["obligations"]:
         print(ob["harness"], ob.get("verdict"), str(ob.get("message", ""))[:400], str(ob.get("counterexample"))[:900], ob.get("queries"), ob.get("solver_s"), str(ob.get("sample"))[:400])
     print(r["info"])
+
+
+def run_c13(tier, seed):
+    """entry point for lib/selftest_mut.py"""
+    return run(tier, seed, which="C13")
